@@ -235,4 +235,6 @@ func init() {
 	register("C04", newC04, newC04NoFault)
 	register("C05", newC05, newC05NoFault)
 	register("C23", newC23, newC23NoFault)
+	register("C06", newC06Quiet, newC06Racing)
+	register("C20", newC20)
 }
